@@ -37,8 +37,8 @@ std::string prop_generate(Tape & t, int size) {
     const DType & dt = DTYPES[t.below(N_DTYPES)];
     Op def = gen_signal(t, 1, 1, dt, DEF_MINIMAL);
     def.rate = (uint32_t) t.pick(std::vector<int64_t>{1000, 1, 10, 48000, 1000000, 2000000, 100000000, 1000000000});
-    def.utcdf = (uint32_t) t.pick(std::vector<uint32_t>{2, 3, 10, 0, 2, 3});
-    uint32_t df = def.utcdf ? def.utcdf : 100;
+    def.utcdf = (uint32_t) t.pick(std::vector<uint32_t>{2, 10, 12, 0, 10, 3});
+    uint32_t df = def.utcdf ? std::max<uint32_t>(def.utcdf, 10) : 100;   // factors below 10 are raised to the minimum by the library
     p.ops.push_back(def);
     int64_t first = t.chance(1, 3) ? 0 : gen_first_id(t);
     if (first > (1LL << 50)) first = 1LL << 41;
